@@ -674,6 +674,51 @@ theorem flushCommit_ok {m : Mem} {d : Disk} {name : Nat} {size : Nat} {m' : Mem}
         rw [List.append_nil] at this
         exact this
 
+/-- a Commit whose table close failed: nothing is appended, no version changes; only the pending
+output and the flusher go away (the partial table stays on disk, unreferenced) -/
+theorem flushFail_ok {m : Mem} {d : Disk} {name : Nat} {m' : Mem} {ops : List FsOp}
+    (h : Inv m d) (he : flushFail m name = some (m', ops)) :
+    ops = [] ∧ m'.vs = m.vs ∧ m'.info = m.info ∧ OpOK m d m' ops := by
+  unfold flushFail at he
+  cases hf : m.fam? name with
+  | none => simp [hf] at he
+  | some f =>
+    obtain ⟨hfm, hfn⟩ := fam?_some hf
+    simp only [hf] at he
+    cases hfl : f.flusher with
+    | none => simp [hfl] at he
+    | some fl =>
+      simp only [hfl] at he
+      cases hb : fl.builder with
+      | none => simp [hb] at he
+      | some p =>
+        obtain ⟨n, c⟩ := p
+        simp only [hb, Option.some.injEq, Prod.mk.injEq] at he
+        obtain ⟨rfl, rfl⟩ := he
+        let f' : Fam := { f with pending := f.pending.filter (· ≠ n), flusher := none }
+        have ho : f'.opt = f.opt := rfl
+        have hinfo : (m.setFam f').info = m.info := setFam_info h.names hfm ho
+        refine ⟨rfl, rfl, hinfo, ?_⟩
+        refine ⟨fun k => Or.inl (by rw [take_nil_disk]; exact h.cons), ?_, rfl⟩
+        show Inv (m.setFam f') d
+        refine ⟨?_, h.cur, h.jlt, h.nums, h.wf, ?_, ?_, ?_, ?_⟩
+        · rw [hinfo]; exact h.cons
+        · rw [setFam_ids h.names hfm ho]; exact h.ids
+        · intro g hg x hx
+          rcases mem_setFam h.names hfm ho hg with rfl | ⟨hg, _⟩
+          · simp only [f', List.mem_filter] at hx
+            exact h.pend f hfm x hx.1
+          · exact h.pend g hg x hx
+        · intro g hg fl' hfl' n' c' hb'
+          rcases mem_setFam h.names hfm ho hg with rfl | ⟨hg, _⟩
+          · simp [f'] at hfl'
+          · exact h.builder g hg fl' hfl' n' c' hb'
+        · refine ⟨h.seq.1, ?_⟩
+          intro g hg
+          rcases mem_setFam h.names hfm ho hg with rfl | ⟨hg, _⟩
+          · exact h.seq.2 f hfm
+          · exact h.seq.2 g hg
+
 /-! ### createFamily -/
 
 theorem updFams_append_other (fams : List FamV) (g : FamV) (fid : Int) (logs : List Log) (h : g.id ≠ fid) :
